@@ -56,6 +56,7 @@ func runC12(c *runCtx) error {
 		var staged []githash.Hash
 		cur := basePolicy(r, "C12")
 		cur.Globals = nil
+		cur.Controllers = nil
 		nOps := 2 + r.Intn(9)
 		ops, obs, hops := []string{}, []string{}, []string{}
 		parents := []string{}
@@ -82,6 +83,7 @@ func runC12(c *runCtx) error {
 						np, kind = mutatePolicy(r, cur, r.Intn(3) == 0)
 					}
 					np.Globals = nil
+					np.Controllers = nil
 					cur = np
 					md, e := np.stateMetadata()
 					if e != nil {
